@@ -248,6 +248,8 @@ func (h *handler1) handleClientPublish(ctx context.Context, snPublish *snPkts1.P
 		}
 	case snPkts1.TIT_SHORT:
 		topic = snPkts.DecodeShortTopic(snPublish.TopicID)
+	default:
+		return fmt.Errorf("invalid topic ID type %d", snPublish.TopicIDType)
 	}
 	if snPublish.QOS == 1 {
 		h.transactions.Store(msgID, newClientPublishQOS1Transaction(ctx, h, msgID, snPublish.TopicID))
